@@ -289,7 +289,9 @@ func (e *Env) funcTestValue(n *Node, idx int, ts TestSpec) z.Test {
 		msg := o.Msg
 		t.IssueFmtFunc = func(is *z.ZogIssue, ctx z.Ctx) { is.SetMessage(msg) }
 	}
-	if o.MsgFunc != "" && !(o.Msg != "" && o.MsgLast) {
+	if o.MsgFunc == NoopMsgFunc && !(o.Msg != "" && o.MsgLast) {
+		t.IssueFmtFunc = func(is *z.ZogIssue, ctx z.Ctx) {}
+	} else if o.MsgFunc != "" && !(o.Msg != "" && o.MsgLast) {
 		marker := o.MsgFunc
 		t.IssueFmtFunc = func(is *z.ZogIssue, ctx z.Ctx) { is.SetMessage(marker) }
 	}
@@ -301,7 +303,10 @@ func (e *Env) opts(o Opts) []z.TestOption {
 	if o.Msg != "" && !o.MsgLast {
 		out = append(out, z.Message(o.Msg))
 	}
-	if o.MsgFunc != "" {
+	if o.MsgFunc == NoopMsgFunc {
+		// a MessageFunc that decides, this time, to leave the message to the formatters below it
+		out = append(out, z.MessageFunc(func(is *z.ZogIssue, ctx z.Ctx) {}))
+	} else if o.MsgFunc != "" {
 		marker := o.MsgFunc
 		out = append(out, z.MessageFunc(func(is *z.ZogIssue, ctx z.Ctx) { is.SetMessage(marker) }))
 	}
@@ -1145,6 +1150,9 @@ func (e *Env) execOpts(x Exec) []z.ExecOption {
 	}
 	return out
 }
+
+// NoopMsgFunc as Opts.MsgFunc: a MessageFunc that sets no message (the formatters below it decide).
+const NoopMsgFunc = "@noop"
 
 // TemplateFormatter as Exec.Formatter installs the library's own default formatter over a message catalogue whose
 // templates use several placeholders each (the test's parameter and the keys of z.Params given by the generators).
